@@ -651,10 +651,23 @@ impl Engine for CabiEngine {
             caps.push(rng.range(0, f as u64) as usize);
             caps.push(f + rng.range(0, 1 << 16) as usize);
         }
+        // complete enumeration of the decompress window for small files
+        let thorough = ctx.tier == Tier::Thorough;
+        if f <= 4096 && (thorough || ctx.job % 4 == 0) {
+            caps.extend(0..=f + 2);
+            res.bump("workloads_with_complete_decompress_window_enumeration");
+        }
         caps.sort();
         caps.dedup();
         for &c in caps.iter() {
             plans.push(mk(Call::Decompress, c));
+        }
+        // complete enumeration of the compress window for small outputs (each call re-expands the file)
+        if s <= 1200 && (thorough || ctx.job % 16 == 1) {
+            for c in 0..=s + 24 {
+                plans.push(mk(Call::Compress, c));
+            }
+            res.bump("workloads_with_complete_compress_window_enumeration");
         }
         // site census (fault-free) for the panic injection
         let census_c = raw_call(Call::Compress, &prep.file, b + 64, None, false);
